@@ -306,12 +306,10 @@ def _mask(s, sb):
     return re.sub(r"/tmp/tmp[a-z0-9_]{8}", "/tmp/tmpXXXXXXXX", str(s).replace(sb.root, "$SB"))
 
 
-def run_history(blob, apath, info, hist, sb):
+def run_history(blob, apath, info, hist, sb, full_check=False):
     """Execute one consumer history on the real code -> (fails [(clause, message)], outcome, n results, steps, n events)"""
     from sharepoint2text.parsing.extractors.archive_extractor import read_archive
     kind, k = hist
-    if os.listdir(sb.tmp):
-        sb.clean_tmp()
     old_tmp, old_cwd = tempfile.tempdir, os.getcwd()
     tempfile.tempdir = sb.tmp
     os.chdir(sb.cwd)
@@ -330,8 +328,8 @@ def run_history(blob, apath, info, hist, sb):
     fails = []
 
     # ---- file-system events
-    own, bad_w, bad_r = [], [], []
-    for ev, acc, txt, real, caller in events:
+    own, bad_w, bad_r, litter = [], [], [], []
+    for ev, acc, txt, real, caller, existed in events:
         if ev in ("tempfile.mkdtemp", "tempfile.mkstemp"):
             if os.path.dirname(real) == sb.tmp:
                 own.append(real)
@@ -340,10 +338,21 @@ def run_history(blob, apath, info, hist, sb):
             continue
         if any(real == d or real.startswith(d + "/") for d in own):
             continue
+        if acc == "N":
+            continue
         if acc == "W":
             bad_w.append(f"{ev}({_mask(txt, sb)!r}) -> {_mask(real, sb)} [{caller}]")
+            if not existed and ev in ("open", "os.mkdir"):
+                litter.append(real)
         elif not _whitelisted(real) and not caller.startswith("<frozen importlib"):
             bad_r.append(f"{ev}({_mask(txt, sb)!r}) -> {_mask(real, sb)} [{caller}]")
+    for p in reversed(litter):
+        # host hygiene only: remove what a (mutated) library created outside the sandbox during this history
+        try:
+            if not (p == sb.root or p.startswith(sb.root + "/")) and os.path.lexists(p):
+                os.rmdir(p) if os.path.isdir(p) and not os.path.islink(p) else os.remove(p)
+        except OSError:
+            pass
     if bad_w:
         fails.append(("write-outside", f"{len(bad_w)} write/create/delete event(s) outside the temporary directory of this call: {bad_w[:3]}"))
     if bad_r:
@@ -354,17 +363,13 @@ def run_history(blob, apath, info, hist, sb):
     if left:
         fails.append(("residue", f"after history {hist} the temp root still holds {[_mask(x, sb) for x in left[:5]]}"))
         sb.clean_tmp()
-    snap = sb.snapshot()
-    if snap != sb.snap0:
-        diff = sorted(set(snap.items()) ^ set(sb.snap0.items()))
-        fails.append(("host-modified", f"sandbox tree changed: {[(d[0], d[1][0]) for d in diff[:4]]}"))
-        shutil.rmtree(os.path.join(sb.root, "canary"), ignore_errors=True)
-        shutil.rmtree(sb.cwd, ignore_errors=True)
-        sb.restore()
-        for rel in set(snap) - set(sb.snap0):
-            p = os.path.join(sb.root, rel)
-            if os.path.lexists(p):
-                shutil.rmtree(p, ignore_errors=True) if os.path.isdir(p) and not os.path.islink(p) else os.remove(p)
+    if full_check or not sb.intact():
+        snap = sb.snapshot()
+        if snap != sb.snap0:
+            diff = sorted(set(snap.items()) ^ set(sb.snap0.items()))
+            fails.append(("host-modified", f"sandbox tree changed: {[(d[0], d[1][0]) for d in diff[:4]]}"))
+        if snap != sb.snap0 or not sb.intact():
+            sb.restore()
 
     # ---- results
     leaked_k, leaked_x, named_x = [], [], []
@@ -439,7 +444,7 @@ def reexec(fmt, case):
     blob, apath, info = build(_arch_of(case), sb.root, seed)
     if blob is None:
         return []
-    return run_history(blob, apath, info, list(case.get("h") or ["exhaust", 0]), sb)[0]
+    return run_history(blob, apath, info, list(case.get("h") or ["exhaust", 0]), sb, full_check=True)[0]
 
 
 def _canary_family(nm):
@@ -579,39 +584,49 @@ def _with_flags(m, f):
     return m if f == [1, 0, 0] else {**m, "f": f}
 
 
-def archives_for(tier, part):
+def _arch_gen(tier, part):
+    """archives of one part; for the big grammar parts the first element of each yielded pair is the name index (used to
+    partition the work without materialising the whole part)"""
     quick = tier == "quick"
     D = 2 if quick else 3
     D2 = 1 if quick else 2
     kind, _, arg = part.partition(":")
     if kind == "names":
-        for nm in names(D):
+        for i, nm in enumerate(names(D)):
             if arg == "7z":
                 for f, ns in _flag_combos():
-                    yield {"c": "7z", "m": [W1, _with_flags({"n": nm, "t": "REG"}, f)], "o": ({"no_streams": True} if ns else {})}
+                    if quick and len(nm["s"]) > 1 and (f[1] or f[2]):
+                        continue          # quick: EmptyStream / directory-attribute forgeries only for one-segment names
+                    yield i, {"c": "7z", "m": [W1, _with_flags({"n": nm, "t": "REG"}, f)], "o": ({"no_streams": True} if ns else {})}
             else:
-                yield {"c": arg, "m": [W1, {"n": nm, "t": "REG"}]}
+                yield i, {"c": arg, "m": [W1, {"n": nm, "t": "REG"}]}
     elif kind == "tartypes":
         link = gname("", "/", ".txt", ["a"])
         lname = gname("", "/", ".txt", ["l"])
         for t in TAR_TYPES[1:]:
-            for nm in names(D2):
+            for i, nm in enumerate(names(D2)):
                 m = {"n": nm, "t": t}
                 if t in ("SYM", "LNK"):
                     m["l"] = link
-                yield {"c": arg, "m": [W1, m]}
+                yield i, {"c": arg, "m": [W1, m]}
         for t in ("SYM", "LNK"):
-            for target in names(D):
-                yield {"c": arg, "m": [W1, {"n": lname, "t": t, "l": target}]}
+            for i, target in enumerate(names(D if arg == "tar" else D2)):      # full target grammar on the plain tar only
+                yield i, {"c": arg, "m": [W1, {"n": lname, "t": t, "l": target}]}
     elif kind == "ziptypes":
         link = gname("", "/", ".txt", ["a"])
         lname = gname("", "/", ".txt", ["l"])
-        for nm in names(D2):
-            yield {"c": arg, "m": [W1, {"n": nm, "t": "DIR"}]}
-            yield {"c": arg, "m": [W1, {"n": nm, "t": "ZSYM", "l": link}]}
-        for target in names(D):
-            yield {"c": arg, "m": [W1, {"n": lname, "t": "ZSYM", "l": target}]}
-    elif kind == "canary":
+        for i, nm in enumerate(names(D2)):
+            yield i, {"c": arg, "m": [W1, {"n": nm, "t": "DIR"}]}
+            yield i, {"c": arg, "m": [W1, {"n": nm, "t": "ZSYM", "l": link}]}
+        for i, target in enumerate(names(D if arg == "zip-s" else D2)):    # full target grammar on the stored zip only
+            yield i, {"c": arg, "m": [W1, {"n": lname, "t": "ZSYM", "l": target}]}
+    else:
+        for i, a in enumerate(_small_part(kind)):
+            yield i, a
+
+
+def _small_part(kind):
+    if kind == "canary":
         lname = gname("", "/", ".txt", ["l"])
         for kid in CANARY_ORDER:
             nm = {"k": kid}
@@ -645,6 +660,15 @@ def archives_for(tier, part):
                     yield {"c": c, "m": [{"n": gname("", "/", "", ["d"]), "t": t, "l": dn}, through, W1]}
             for c in ZIPC:
                 yield {"c": c, "m": [{"n": gname("", "/", "", ["d"]), "t": "ZSYM", "l": dn}, through, W1]}
+    elif kind == "pairs":
+        # two data-carrying members whose names collide (file vs directory of the same name, same file twice, aliases)
+        pool = [gname("", "/", ".txt", ["a"]), gname("", "/", ".txt", ["a.txt", "a"]), gname("", "/", "", ["a"]),
+                gname("", "/", ".txt", ["a", "a"]), gname("", "/", ".txt", [".", "a"]), gname("", "/", ".txt", ["a", "..", "a"]),
+                gname("", "/", ".txt", ["..", "a"]), gname("/", "/", ".txt", ["a"])]
+        for n1 in pool:
+            for n2 in pool:
+                for c in ("7z", "zip-s", "tar"):
+                    yield {"c": c, "m": [{"n": n1, "t": "REG"}, {"n": n2, "t": "REG"}, W1]}
     elif kind == "oversize":
         big = {"n": {"big": 1}, "t": "REG"}
         for c in ZIPC + TARC:
@@ -654,11 +678,19 @@ def archives_for(tier, part):
     elif kind == "trunc":
         ms = [W1, {"n": gname("", "/", ".txt", [".h"]), "t": "REG"}, {"n": gname("", "/", ".txt", ["a", "a"]), "t": "REG"}]
         for c, limit in (("zip-s", None), ("zip-d", None), ("tar", 3072), ("tar.gz", None), ("tar.bz2", None), ("tar.xz", None), ("7z", None)):
+            # lengths of the seed-0 rendering (token spelling changes compressed sizes by a few bytes; "cut" means
+            # "keep the first cut bytes", a cut beyond the end keeps the archive whole)
             full = build({"c": c, "m": ms}, "/nonexistent", 0)[0]
             for n in range(0, min(len(full), limit or len(full))):
                 yield {"c": c, "m": ms, "cut": n}
     else:
-        raise ValueError(part)
+        raise ValueError(kind)
+
+
+def archives_for(tier, part, k=0, n=1):
+    for i, a in _arch_gen(tier, part):
+        if i % n == k:
+            yield a
 
 
 def parts(tier):
@@ -673,6 +705,7 @@ def parts(tier):
     for c in ZIPC:
         out.append((f"ziptypes:{c}", 2 if quick else 8))
     out.append(("canary", 8))
+    out.append(("pairs", 2))
     out.append(("trunc", 4))
     out.append(("oversize", 8))
     return out
@@ -695,9 +728,7 @@ def _part(arg):
         _WL["warm"] = True
     st = {"archives": 0, "histories": 0, "states": 0, "transitions": 0, "inexpressible": 0, "fails": [], "outcomes": {},
           "samples": [], "temp_dirs": 0, "events": 0}
-    for i, arch in enumerate(archives_for(tier, part)):
-        if i % n != k:
-            continue
+    for arch in archives_for(tier, part, k, n):
         res = explore_archive(arch, sb, seed)
         if res is None:
             st["inexpressible"] += 1
@@ -718,6 +749,8 @@ def _part(arg):
             names_ = build(arch, "$SB", seed)[2]["names"]
             st["samples"].append({"part": part, "archive": arch, "member_names": [x if len(x) < 80 else x[:30] + f"...({len(x)} chars)" for x in names_],
                                   "histories": [[h, repr(oc)] for h, _, oc, _, _ in res][:6]})
+    if sb.snapshot() != sb.snap0:
+        st["late_modified"] = f"sandbox content differs at the end of partition {part} {k}/{n} although no history reported it"
     return st
 
 
@@ -738,6 +771,8 @@ def run(ctx):
         if status != "done":
             herr.append(f"partition {a[:4]} failed: {status}: {str(r)[-800:]}")
             continue
+        if r.get("late_modified"):
+            herr.append(r["late_modified"])
         for k in tot:
             tot[k] += r[k]
         per_part[a[1]] = per_part.get(a[1], 0) + r["archives"]
